@@ -50,6 +50,11 @@ def queries(tier):
                       defs={"FAM": fam, "LS_MAX": 700 if fam == 4 else 200}, shape={"family": name}, unwind=300, timeout=1200)
             q.asm_parts = parts
             qs.append(q)
+    try:
+        from checks import cpp_ir
+        qs += cpp_ir.c16_queries(tier)
+    except ImportError:
+        pass
     return qs
 
 
